@@ -2,7 +2,7 @@
    Property theorems only: each is closed by `exact <lemma>` and followed by Print Assumptions.
    H is the hash (tmcg_mpz_shash on the argument list), an arbitrary function: every theorem holds for all H. *)
 From Coq Require Import ZArith List Bool Znumtheory Lia.
-From LT Require Import gen_Consts Zbase CoinFlipArith CoinFlipModel CoinFlipLemmas TsigModel TsigLemmas.
+From LT Require Import gen_Consts Zbase VssModel VssLemmas CoinFlipArith CoinFlipModel CoinFlipLemmas TsigModel TsigLemmas TsigDssModel TsigDssLemmas.
 Import ListNotations.
 Local Open Scope Z_scope.
 
@@ -48,15 +48,66 @@ Theorem C16_tschnorr_valid_honest : forall (H : list Z -> Z) G, sgroup G -> fora
 Proof. exact tschnorr_valid_honest. Qed.
 Print Assumptions C16_tschnorr_valid_honest.
 
-(* threshold DSS: the pair r = (g^(1/k) mod p) mod q, s = k (m + x r) mod q that a correct run reconstructs is
-   accepted by the textbook predicate under y = g^x.  Partial: the sharing of k, a, the zero-sharings and the
-   degree-2t interpolation that produce these values are not modelled. *)
-Theorem C16_tdss_valid_partial : forall G, sgroup G -> forall x k kinv m,
+(* threshold DSS, full signing algebra (CanettiGennaroJareckiKrawczykRabinDSS::Sign steps 1f, 2f).
+   Fk, Fa, Fx: the joint polynomials of the nonce k, the mask a and the key x (coefficients, low to high); S: the abscissae of the
+   signers (at least deg Fk + deg Fa + 1 = 2t+1 of them); every signer j shared v_j = k_j a_j resp. v'_j = k_j (m + x_j r) with a
+   polynomial of at most d = t+1 coefficients (shared_mu / shared_s); R1, R2: ANY parties (>= t+1, distinct abscissae) whose
+   broadcast shares are interpolated.  Then the (r, s) computed by the model of the code is a valid DSA signature under y = g^x. *)
+Theorem C16_tdss_valid : forall G, sgroup G -> prime (gq G) ->
+  forall Fk Fa Fx : list Z, Fk <> [] -> Fa <> [] -> Fx <> [] ->
+  forall S, pts_ok (gq G) S ->
+  (length Fk + length Fa <= Datatypes.S (length S))%nat -> (length Fk + length Fx <= Datatypes.S (length S))%nat ->
+  forall (d : nat) (m : Z) (fs fs' : list (list Z)) (R1 R2 : list Z) (r s : Z),
+  shared_mu G Fk Fa S d fs ->
+  pts_ok (gq G) R1 -> (d <= length R1)%nat -> pts_ok (gq G) R2 -> (d <= length R2)%nat ->
+  dss_sign G Fa S fs fs' R1 R2 = Some (r, s) ->
+  shared_s G Fk Fx S d m r fs' ->
+  0 < r -> 0 < s ->
+  dsa_textbook G (powm (gg G) (poly_eval (gq G) Fx 0) (gp G)) m r s = true.
+Proof. exact tdss_valid. Qed.
+Print Assumptions C16_tdss_valid.
+
+(* all honest parties obtain the same signature: whichever admissible parties' broadcast shares two parties interpolate
+   (each takes its own share first), the outputs coincide -- the output is a function of the broadcast data *)
+Theorem C16_all_honest_same_signature : forall G, prime (gq G) ->
+  forall Fk Fa Fx : list Z, Fk <> [] -> Fa <> [] -> Fx <> [] ->
+  forall S, pts_ok (gq G) S ->
+  (length Fk + length Fa <= Datatypes.S (length S))%nat -> (length Fk + length Fx <= Datatypes.S (length S))%nat ->
+  forall (d : nat) (m : Z) (fs fs' : list (list Z)) (R1 R2 R1' R2' : list Z) (r s r' s' : Z),
+  shared_mu G Fk Fa S d fs ->
+  pts_ok (gq G) R1 -> (d <= length R1)%nat -> pts_ok (gq G) R2 -> (d <= length R2)%nat ->
+  pts_ok (gq G) R1' -> (d <= length R1')%nat -> pts_ok (gq G) R2' -> (d <= length R2')%nat ->
+  dss_sign G Fa S fs fs' R1 R2 = Some (r, s) -> dss_sign G Fa S fs fs' R1' R2' = Some (r', s') ->
+  shared_s G Fk Fx S d m r fs' -> r = r' /\ s = s'.
+Proof. exact all_honest_same_signature. Qed.
+Print Assumptions C16_all_honest_same_signature.
+
+(* with correct shares the run produces a result unless k a = 0 (no missing inverse) *)
+Theorem C16_tdss_completes : forall G, prime (gq G) ->
+  forall Fk Fa Fx : list Z, Fk <> [] -> Fa <> [] ->
+  forall S, pts_ok (gq G) S ->
+  (length Fk + length Fa <= Datatypes.S (length S))%nat -> (length Fk + length Fx <= Datatypes.S (length S))%nat ->
+  forall (d : nat) (fs fs' : list (list Z)) (R1 R2 : list Z),
+  shared_mu G Fk Fa S d fs -> pts_ok (gq G) R1 -> (d <= length R1)%nat -> pts_ok (gq G) R2 ->
+  length fs = length S -> (peval Fk 0 * peval Fa 0) mod gq G <> 0 ->
+  exists r s, dss_sign G Fa S fs fs' R1 R2 = Some (r, s).
+Proof. exact tdss_completes. Qed.
+Print Assumptions C16_tdss_completes.
+
+(* tie to the correspondence records: what dss_sign interpolates is the Lagrange value of the signers' own products *)
+Theorem C16_dss_interp_is_lincomb : forall q S fs R d mu, prime q -> pts_ok q R ->
+  Forall (fun f => (length f <= d)%nat) fs -> (d <= length R)%nat -> length fs = length S ->
+  dss_interp q S fs R = Some mu -> dss_lincomb q S (map (fun f => peval f 0) fs) = Some mu.
+Proof. exact dss_interp_is_lincomb. Qed.
+Print Assumptions C16_dss_interp_is_lincomb.
+
+(* the last step in isolation (used by C16_tdss_valid): r = (g^(1/k) mod p) mod q, s = k (m + x r) mod q is accepted *)
+Theorem C16_dsa_algebra : forall G, sgroup G -> forall x k kinv m,
   prime (gq G) -> (k * kinv) mod gq G = 1 -> 0 <= kinv ->
   let y := sexp G (gg G) x in let r := dss_r G kinv in let s := dss_s (gq G) k m x r in
   0 < r -> 0 < s -> dsa_textbook G y m r s = true.
 Proof. exact tdss_valid_partial. Qed.
-Print Assumptions C16_tdss_valid_partial.
+Print Assumptions C16_dsa_algebra.
 
 (* non-vacuity: p = 23, q = 11, g = 2; a Schnorr signature with H = sum of the arguments, a DSA signature *)
 Definition G23 : group := mkGroup 23 11 2 3.
@@ -75,3 +126,11 @@ Proof. split; vm_compute; reflexivity. Qed.
    Lagrange reconstruction is C15's theorem; here the function is model-compared with the real Reconstruct) *)
 Example C16_nonvacuous_interp0 : interp0 11 [(2, (3 + 5 * 2) mod 11); (4, (3 + 5 * 4) mod 11)] = Some 3.
 Proof. vm_compute. reflexivity. Qed.
+(* a complete threshold run over p = 23, q = 11, g = 2, t = 1: Fk = 4 + 3X, Fa = 2 + X, Fx = 3 + 5X, signers 1, 2, 3, m = 5;
+   the sharing polynomials of the v_j are constants plus X; the result verifies *)
+Example C16_nonvacuous_run :
+  let G := G23 in let Fk := [4; 3] in let Fa := [2; 1] in let Fx := [3; 5] in let S := [1; 2; 3] in
+  let fs := map (fun x => [dss_v 11 (poly_eval 11 Fk x) (poly_eval 11 Fa x); 1]) S in
+  exists r s, dss_sign G Fa S fs (map (fun x => [dss_v 11 (poly_eval 11 Fk x) (dss_aprime 11 (poly_eval 11 Fx x) 8 5); 7]) S) [1; 2] [3; 1] = Some (r, s)
+              /\ r = 8 /\ dsa_textbook G (powm 2 3 23) 5 r s = true.
+Proof. cbv zeta. eexists. eexists. split; [vm_compute; reflexivity|]. split; vm_compute; reflexivity. Qed.
